@@ -32,6 +32,19 @@ def showRes {α} (f : α → String) : Except Err α → String
   | .ok a => "ok " ++ f a
   | .error e => "err " ++ e.tag
 
+/-- all points of a toy curve: infinity, then by x, then by y (the harness enumerates in the same order) -/
+def toyPoints (c : CurveParams) : List Pt :=
+  none :: (List.range c.p).flatMap fun (x : Nat) => (List.range c.p).filterMap fun (y : Nat) =>
+    if containsXY c (x : Int) (y : Int) then some (some ((x : Int), (y : Int))) else none
+
+def showE (r : Except Err Pt) : String :=
+  match r with
+  | .ok P => showPt P
+  | .error e => e.tag
+
+/-- `k` from `-2n` to `2n` -/
+def kRange (n : Nat) : List Int := (List.range (4 * n + 1)).map fun (i : Nat) => (i : Int) - 2 * (n : Int)
+
 def handle : Handler := fun op args =>
   match op, args with
   | "ec_add", [c, P, Q] => do
@@ -50,6 +63,31 @@ def handle : Handler := fun op args =>
     let b ← parseInt? b
     -- `_blinding_factor = int.from_bytes(entropy_f(32)) % order`
     some (showRes showPt (mulG c (Pycoin.fmod b c.n) k))
+  | "ec_assoc", [c, P, Q, R] => do
+    let c ← parseCurve? c
+    let P ← parsePt? P; let Q ← parsePt? Q; let R ← parsePt? R
+    let l := match add c P Q with | .ok s => add c s R | .error e => .error e
+    let r := match add c Q R with | .ok s => add c P s | .error e => .error e
+    match l, r with
+    | .ok l, .ok r => some s!"ok {showPt l} {showPt r}"
+    | .error e, _ => some ("err " ++ e.tag)
+    | _, .error e => some ("err " ++ e.tag)
+  | "ec_genmul", [c, k] => do
+    some (showRes showPt (mulG (← parseCurve? c) 0 (← parseInt? k)))
+  | "ec_invmodc", [_, a, m] => do
+    some (showRes toString (inverseMod (← parseInt? a) (← parseInt? m)))
+  | "ec_toy_addtable", [c] => do
+    let c ← parseCurve? c
+    let pts := toyPoints c
+    some ("ok " ++ "|".intercalate (pts.map fun P => ";".intercalate (pts.map fun Q => showE (add c P Q))))
+  | "ec_toy_multable", [c] => do
+    let c ← parseCurve? c
+    let pts := toyPoints c
+    some ("ok " ++ "|".intercalate (pts.map fun P => ";".intercalate ((kRange c.n).map fun k => showE (multiply c P k))))
+  | "ec_toy_gentable", [c, b] => do
+    let c ← parseCurve? c
+    let bf := Pycoin.fmod (← parseInt? b) c.n
+    some ("ok " ++ ";".intercalate ((kRange c.n).map fun k => showE (mulG c bf k) ++ "/" ++ showE (rawMul c k)))
   | "ec_invmod", [a, m] => do
     some (showRes toString (inverseMod (← parseInt? a) (← parseInt? m)))
   | "ec_points_for_x", [c, x] => do
